@@ -138,6 +138,15 @@ def run_stages(prop, cfg, tier, repo, seed, known):
         by_fn = {}
         for w in r['witnesses']:
             by_fn.setdefault(w['fn'], []).append(w)
+        if g.get('stub'):
+            # checks of the assumed dependency contracts: a failure invalidates the proofs (exit 2), it is not a violation
+            n = sum(r['cases'].values())
+            rep['stub_contract_checks'] = {'cases': n, 'failed': [w['obligation'] + ' ' + w['input'] for w in r['witnesses']][:10], 'bound': g.get('bound', '')}
+            for w in r['witnesses'][:5]:
+                rep['tool_limits'].append('assumed dependency contract does not hold: %s input=%s' % (w['obligation'], w['input']))
+            if n == 0:
+                rep['tool_limits'].append('stub contract checks evaluated zero cases')
+            continue
         for fn, meta in fns.items():
             if prop not in meta.get('props', g.get('props', [])):
                 continue
